@@ -6,7 +6,7 @@
     all programs (hence all definition sequences over the name pool in every order, all dependency
     graphs — factories are arbitrary first-order programs — and all request histories). *)
 From Coq Require Import Relations Permutation.
-From GC Require Import Common.Base Model.Di Proofs.Di.
+From GC Require Import Common.Base Model.Di Proofs.Di Proofs.DiMore.
 
 (** ** Termination: the fuel [#keys + 1] of a request is never exhausted, cycles included. *)
 Theorem C10_fuel : forall ops n, snd (Get (run ops init) n) <> GFuel.
@@ -236,4 +236,255 @@ Example ex_order :
 Proof.
   cbv zeta. split; [|vm_compute; split; reflexivity].
   exact (Permutation_rev [OAddDefaultFactory 0 1 fA; OAddFactory 0 2 fB; OSetDefault 0 3; OSet 1 4]).
+Qed.
+
+(** * Proof audit: the clauses stated only partially above, at full strength (Proofs/DiMore.v)
+
+    [nofreeze o] = [o] is a definition call or an InjectTo without tagged fields (nothing that
+    resolves); [def_prefix ops] = the calls of a program made before its first resolution;
+    [spec_eff ds n] = the definition asked for by the FIRST explicit call for [n] in [ds] (Set /
+    AddFactory), if there is none by the first default call for [n] (SetDefault /
+    AddDefaultFactory), else none. *)
+
+(** ** Precedence, every order, no acceptance hypothesis (supersedes [C10_order_independent], which
+    needs every call accepted in both orders): whatever calls are made in whatever order, accepted
+    or refused, the effective definition set is the closed form - explicit before default, and
+    within a class the first call wins. *)
+Theorem C10_first_definition_wins : forall ds n,
+  forallb nofreeze ds = true -> eff (run ds init) n = spec_eff ds n.
+Proof. exact first_wins. Qed.
+Print Assumptions C10_first_definition_wins.
+
+(** ... hence for EVERY program (definition calls and requests freely mixed, refused calls, failed
+    requests, cycles): the outcome of a request is the memo-free resolution over the closed form of
+    the calls made before the first resolution, and the instance comes from the producer it names.
+    (Supersedes [C10_get_refines_resolve] in that the definition set is given in closed form.) *)
+Theorem C10_get_decided_by_first_definitions : forall ops n,
+  let D := spec_eff (def_prefix ops) in
+  match snd (Get (run ops init) n) with
+  | GOk t => Good D [] n /\ source D n = Some (tok_source t)
+  | GErr => ~ Good D [] n
+  | GFuel => False
+  end.
+Proof. exact get_first_wins_expanded. Qed.
+Print Assumptions C10_get_decided_by_first_definitions.
+
+(** Explicit beats default, full strength (supersedes [C10_explicit_beats_default], which asks for
+    an ACCEPTED explicit call): if the calls before the first resolution contain any explicit call
+    for [n] - accepted or refused, before or after any default calls - a successful request for [n]
+    yields an explicitly defined instance. *)
+Theorem C10_explicit_wins_always : forall ops d n s' t,
+  In d (def_prefix ops) -> explicit_def_on d n = true ->
+  Get (run ops init) n = (s', GOk t) -> explicit_kind (t_kind t) = true.
+Proof. exact explicit_wins_always. Qed.
+Print Assumptions C10_explicit_wins_always.
+
+(** Default calls never matter for a name with an explicit call: two call sequences whose explicit
+    calls for [n] agree (same calls, same relative order) define [n] alike, by the first of them -
+    whatever else differs (default calls for [n] added, removed, moved; other names). *)
+Theorem C10_defaults_never_matter : forall ds ds' n,
+  forallb nofreeze ds = true -> forallb nofreeze ds' = true ->
+  filter (fun o => explicit_def_on o n) ds = filter (fun o => explicit_def_on o n) ds' ->
+  filter (fun o => explicit_def_on o n) ds <> [] ->
+  eff (run ds init) n = eff (run ds' init) n /\
+  exists d, hd_error (filter (fun o => explicit_def_on o n) ds) = Some d /\
+            eff (run ds init) n = def_of d.
+Proof. exact defaults_never_matter. Qed.
+Print Assumptions C10_defaults_never_matter.
+
+(** What is NOT order independent (the full permutation statement is false): among the explicit
+    calls for one name the first wins.  Set-then-AddFactory serves the value (the accepted factory
+    is dead), AddFactory-then-Set refuses the Set and serves the factory product. *)
+Theorem C10_explicit_order_matters_refuted :
+  let a := OSet 0 5 in let b := OAddFactory 0 6 (mkProg [] false false) in
+  Permutation [a; b] [b; a] /\
+  map (fun x => fst (fst x)) (run_obs [0] [a; b; OGet 0] init)
+    = [UDef true; UDef true; UGet (GOk (mkTok 0 KInst 5 0))] /\
+  map (fun x => fst (fst x)) (run_obs [0] [b; a; OGet 0] init)
+    = [UDef true; UDef false; UGet (GOk (mkTok 0 KFac 6 1))].
+Proof. exact explicit_order_matters. Qed.
+Print Assumptions C10_explicit_order_matters_refuted.
+
+(** ** InjectTo, functional and history independent: from every reachable state InjectTo answers
+    what [InjSpec] says over the definition set - fields in declaration order, a resolvable field
+    filled from the producer the precedence order selects, an unresolvable optional field left
+    alone, the first unresolvable required field ends the call and nothing after it is touched. *)
+Theorem C10_inject_refines_resolve : forall ops reqs fs, let s0 := run ops init in
+  InjSpec (eff s0) fs (srcs (snd (fst (Inject (run reqs (block s0)) fs))))
+          (snd (Inject (run reqs (block s0)) fs)).
+Proof. exact inject_refines. Qed.
+Print Assumptions C10_inject_refines_resolve.
+
+Theorem C10_inject_history_independent : forall ops reqs reqs' fs, let s0 := run ops init in
+  let a := Inject (run reqs (block s0)) fs in let b := Inject (run reqs' (block s0)) fs in
+  srcs (snd (fst a)) = srcs (snd (fst b)) /\ snd a = snd b.
+Proof. exact inject_history_independent. Qed.
+Print Assumptions C10_inject_history_independent.
+
+Theorem C10_inject_decided_by_first_definitions : forall ops fs,
+  let a := Inject (run ops init) fs in
+  InjSpec (spec_eff (def_prefix ops)) fs (srcs (snd (fst a))) (snd a).
+Proof. exact inject_first_wins. Qed.
+Print Assumptions C10_inject_decided_by_first_definitions.
+
+(** ** Once + same instance, whatever the origin of the instance (supersedes
+    [C10_once_same_instance], which starts from a successful direct Get): an instance present in
+    any reachable state - a Set value, a default folded in at the freeze, a product made for a
+    direct request, for an InjectTo field or as a dependency of another factory - is what every
+    request returns after any further program, and the factories of its name never run again. *)
+Theorem C10_instance_forever : forall ops n t ops', let s := run ops init in
+  inst s n = Some t ->
+  let s2 := run ops' s in
+  Get s2 n = (block s2, GOk t) /\ runs s2 n = runs s n /\ inst s2 n = Some t.
+Proof. exact instance_forever. Qed.
+Print Assumptions C10_instance_forever.
+
+(** The run counter of a name that has an instance IS the construction number of that instance
+    (0 for values): in every reachable state the successful run was the last run of that name. *)
+Theorem C10_run_counter_is_construction_number : forall ops n t,
+  inst (run ops init) n = Some t -> t_num t = runs (run ops init) n /\ t_name t = n.
+Proof. exact token_invariant. Qed.
+Print Assumptions C10_run_counter_is_construction_number.
+
+(** A field filled by ANY InjectTo holds the singleton of the field's name: every later request
+    returns that very instance (no earlier Get needed, cf. [C10_inject_same_instance]). *)
+Theorem C10_inject_field_is_singleton : forall ops fs s' l r d t ops',
+  Inject (run ops init) fs = (s', l, r) -> In (d, Some t) (combine (map fst fs) l) ->
+  let s2 := run ops' s' in
+  Get s2 d = (block s2, GOk t) /\ runs s2 d = runs s' d /\ inst s2 d = Some t /\ t_name t = d.
+Proof. exact inject_field_singleton. Qed.
+Print Assumptions C10_inject_field_is_singleton.
+
+(** ... and so does every field of every factory product: a token recorded in the fields of the
+    instance of [n] (what the factory of [n] got from the provider) is the singleton of its name.
+    (The fields left EMPTY are the history-dependent part, see
+    [C10_wiring_history_dependent_refuted].) *)
+Theorem C10_factory_fields_are_singletons : forall ops n t' ops', let s := run ops init in
+  In (Some t') (wire s n) ->
+  let s2 := run ops' s in
+  Get s2 (t_name t') = (block s2, GOk t') /\ runs s2 (t_name t') = runs s (t_name t') /\
+  inst s (t_name t') = Some t'.
+Proof. exact wire_singleton. Qed.
+Print Assumptions C10_factory_fields_are_singletons.
+
+(** ** Lazy, the functional half ([C10_lazy] is the only-if half): a request for a name whose
+    effective definition is a factory runs that factory, exactly once within the request, whether
+    the request succeeds or fails. *)
+Theorem C10_first_need_runs_once : forall ops n k id p, let s := run ops init in
+  eff s n = Some (EFac k id p) -> runs (fst (Get s n)) n = N.succ (runs s n).
+Proof. exact first_need_runs_once. Qed.
+Print Assumptions C10_first_need_runs_once.
+
+(** ** Cycles, full reach (supersedes [C10_cycle_is_error], the case m = n): every name that
+    requires, through required edges, a name on a required cycle is an error, for Get and for a
+    tagged field of InjectTo (a required field ends the call there, an optional one is skipped). *)
+Theorem C10_cycle_reach_is_error : forall ops n m, let s := run ops init in
+  clos_refl_trans name (req_edge (eff s)) n m -> clos_trans name (req_edge (eff s)) m m ->
+  snd (Get s n) = GErr.
+Proof. exact cycle_reach_err. Qed.
+Print Assumptions C10_cycle_reach_is_error.
+
+Theorem C10_cycle_reach_inject : forall ops n m o fs, let s := run ops init in
+  clos_refl_trans name (req_edge (eff s)) n m -> clos_trans name (req_edge (eff s)) m m ->
+  Inject s ((n, o) :: fs) =
+  if o then let '(s2, l, rr) := Inject (fst (Get s n)) fs in (s2, None :: l, rr)
+  else (fst (Get s n), [], RErr).
+Proof. exact cycle_reach_inject. Qed.
+Print Assumptions C10_cycle_reach_inject.
+
+(** ** Non-vacuity of the audit theorems *)
+
+(* a call sequence with refused, ignored and no-op calls: Set after AddFactory (refused), a second
+   AddFactory (refused), AddDefaultFactory before and SetDefault after the explicit call, an
+   InjectTo without tagged fields in the middle, a second SetDefault (refused) *)
+Definition mixed : list op :=
+  [OAddDefaultFactory 0 7 fB; OAddFactory 0 1 fA; OSet 0 9; OInject []; OSetDefault 0 3;
+   OAddFactory 0 8 fB; OSetDefault 1 5; OAddDefaultFactory 1 6 fB; OSetDefault 1 4;
+   OAddDefaultFactory 2 2 (mkProg [] true false)].
+
+(* hypothesis of C10_first_definition_wins; not all calls are accepted *)
+Example ex_mixed : forallb nofreeze mixed = true /\ all_ok mixed init = false /\
+  map (fun x => fst (fst x)) (run_obs [] mixed init)
+  = [UDef true; UDef true; UDef false; UInject [] ROk; UDef true; UDef false; UDef true; UDef true;
+     UDef false; UDef true] /\
+  spec_eff mixed 0 = Some (EFac KFac 1 fA) /\ spec_eff mixed 1 = Some (EVal (mkTok 1 KDef 5 0)) /\
+  spec_eff mixed 3 = None.
+Proof. vm_compute. repeat split. Qed.
+
+(* C10_get_decided_by_first_definitions: all branches occur; the program goes on after the first
+   resolution with a refused definition call *)
+Example ex_decided :
+  let ops := mixed ++ [OGet 2; OSet 5 5; OGet 0] in
+  def_prefix ops = mixed /\
+  map (fun n => snd (Get (run ops init) n)) [0; 1; 2; 5]
+  = [GOk (mkTok 0 KFac 1 1); GOk (mkTok 1 KDef 5 0); GErr; GErr].
+Proof. vm_compute. split; reflexivity. Qed.
+
+(* hypotheses of C10_explicit_wins_always with a REFUSED explicit call as the witness [d] *)
+Example ex_explicit_refused :
+  let d := OAddFactory 0 8 fB in
+  In d (def_prefix (mixed ++ [OGet 1])) /\ explicit_def_on d 0 = true /\
+  snd (step (run [OAddDefaultFactory 0 7 fB; OAddFactory 0 1 fA; OSet 0 9; OInject []; OSetDefault 0 3] init) d)
+    = UDef false /\
+  snd (Get (run (mixed ++ [OGet 1]) init) 0) = GOk (mkTok 0 KFac 1 1).
+Proof. vm_compute. repeat split. right; right; right; right; right; left; reflexivity. Qed.
+
+(* hypotheses of C10_defaults_never_matter: same explicit calls for n0, defaults dropped / moved *)
+Example ex_defaults :
+  let ds' := [OSetDefault 0 3; OAddFactory 0 1 fA; OSet 0 9; OAddFactory 0 8 fB; OSetDefault 2 1] in
+  forallb nofreeze mixed = true /\ forallb nofreeze ds' = true /\
+  filter (fun o => explicit_def_on o 0) mixed = filter (fun o => explicit_def_on o 0) ds' /\
+  filter (fun o => explicit_def_on o 0) mixed <> [].
+Proof. vm_compute. repeat split. discriminate. Qed.
+
+(* C10_inject_refines_resolve: filled, skipped, filled, failed - the field after the failure is
+   not reached *)
+Example ex_inject_spec :
+  snd (step (run (mixed ++ [OGet 2]) init) (OInject [(1, false); (2, true); (0, true); (5, false); (0, false)]))
+  = UInject [Some (mkTok 1 KDef 5 0); None; Some (mkTok 0 KFac 1 1)] RErr.
+Proof. vm_compute. reflexivity. Qed.
+
+(* hypothesis of C10_instance_forever / C10_run_counter_is_construction_number with an instance
+   that was never requested directly: n0 built as a dependency of n1, for an InjectTo field *)
+Example ex_indirect_instance :
+  let s := run (pgm ++ [OInject [(1, false)]]) init in
+  inst s 0 = Some (mkTok 0 KFac 1 1) /\ runs s 0 = 1.
+Proof. vm_compute. split; reflexivity. Qed.
+
+(* hypotheses of C10_inject_field_is_singleton *)
+Example ex_inject_field : exists s',
+  Inject (run pgm init) [(5, true); (1, false)] = (s', [None; Some (mkTok 1 KFac 2 1)], ROk) /\
+  In (1, Some (mkTok 1 KFac 2 1)) (combine (map fst [(5, true); (1, false)]) [None; Some (mkTok 1 KFac 2 1)]).
+Proof. eexists. split; [vm_compute; reflexivity | right; left; reflexivity]. Qed.
+
+(* hypothesis of C10_factory_fields_are_singletons *)
+Example ex_wire : In (Some (mkTok 0 KFac 1 1)) (wire (run (pgm ++ [OGet 1]) init) 1).
+Proof. vm_compute. left. reflexivity. Qed.
+
+(* hypothesis of C10_first_need_runs_once, with a factory that fails: it runs on every request *)
+Example ex_need :
+  let s := run [OAddDefaultFactory 2 2 (mkProg [] true false); OGet 2; OGet 2] init in
+  eff s 2 = Some (EFac KDFac 2 (mkProg [] true false)) /\ runs s 2 = 2 /\
+  snd (Get s 2) = GErr /\ runs (fst (Get s 2)) 2 = 3.
+Proof. vm_compute. repeat split. Qed.
+
+(* hypothesis of C10_fresh_token *)
+Example ex_fresh : let s := run pgm init in
+  (exists s1, Get s 1 = (s1, GOk (mkTok 1 KFac 2 1))) /\ inst (block s) 1 = None.
+Proof. split; [eexists; vm_compute; reflexivity | reflexivity]. Qed.
+
+(* hypotheses of C10_cycle_reach_is_error: n4 -> n0 and n0 on the 3-cycle [ring3] *)
+Definition ring3_in := ring3 ++ [OAddFactory 4 4 (mkProg [(6, true); (0, false)] false false)].
+Example ex_cycle_reach :
+  clos_refl_trans name (req_edge (eff (run ring3_in init))) 4 0 /\
+  clos_trans name (req_edge (eff (run ring3_in init))) 0 0 /\
+  snd (Get (run ring3_in init) 4) = GErr.
+Proof.
+  split; [|split; [|vm_compute; reflexivity]].
+  - apply rt_step. exists KFac, 4, (mkProg [(6, true); (0, false)] false false).
+    split; [reflexivity | right; left; reflexivity].
+  - apply t_trans with 1; [|apply t_trans with 2]; apply t_step.
+    + exists KFac, 1, (mkProg [(1, false)] false false). split; [reflexivity | left; reflexivity].
+    + exists KDFac, 2, (mkProg [(5, true); (2, false)] false false). split; [reflexivity | right; left; reflexivity].
+    + exists KFac, 3, (mkProg [(0, false)] false false). split; [reflexivity | left; reflexivity].
 Qed.
